@@ -330,9 +330,9 @@ func (in *Interp) constVal0(c *ssa.Const) Val {
 		case b.Info()&types.IsFloat != 0:
 			f, _ := constant.Float64Val(c.Value)
 			if b.Kind() == types.Float32 {
-				return FloatV{float64(float32(f)), 32}
+				return FloatV{f: float64(float32(f)), bits: 32}
 			}
-			return FloatV{f, 64}
+			return FloatV{f: f, bits: 64}
 		case b.Info()&types.IsString != 0:
 			return Str{s: constant.StringVal(c.Value)}
 		}
